@@ -35,7 +35,13 @@ try:
     if a.demo:
         r0 = subprocess.run(['/venv/bin/python', str(d / 'demo.py')], cwd=wt, env=env, capture_output=True, text=True, timeout=600)
         print(f'demo without patch: exit {r0.returncode}')
-    subprocess.run(['git', '-C', str(wt), 'apply', str(d / 'patch.diff')], check=True)
+    ap1 = subprocess.run(['git', '-C', str(wt), 'apply', str(d / 'patch.diff')], capture_output=True, text=True)
+    if ap1.returncode != 0:
+        ap2 = subprocess.run(['git', '-C', str(wt), 'apply', '-3', str(d / 'patch.diff')], capture_output=True, text=True)
+        if ap2.returncode != 0 or '<<<<<<<' in subprocess.run(['git', '-C', str(wt), 'diff'], capture_output=True, text=True).stdout:
+            print('PATCH-STALE: does not apply to current /repo HEAD:', ap1.stderr[:300])
+            sys.exit(4)
+        print('(patch applied with 3-way merge)')
     if a.demo:
         r1 = subprocess.run(['/venv/bin/python', str(d / 'demo.py')], cwd=wt, env=env, capture_output=True, text=True, timeout=600)
         print(f'demo with patch: exit {r1.returncode}')
